@@ -187,6 +187,30 @@ class C11Oracle(Oracle):
                 if p < 0:
                     return f"{lab.name}.report does not list the label {label!r} in history order"
                 pos = p + len(label)
+        # "the same entries": the k-th printed state shows the k-th entry's volumes. The layout and the rounding of
+        # the printout are not pinned, so this only looks at printouts that parse as one number per well, and allows
+        # any rounding up to whole microlitres (catches a report that prints another entry's - or the live - array)
+        blocks = re.findall(r"\[\[.*?\]\]", rep, flags=re.S)
+        if len(blocks) != len(hist):
+            return None
+        num = re.compile(r"[-+]?(?:\d+\.?\d*(?:[eE][-+]?\d+)?|\.\d+(?:[eE][-+]?\d+)?|inf|nan)")
+        for k, ((label, state), blk) in enumerate(zip(hist, blocks)):
+            if "..." in blk:
+                return None  # numpy abbreviated a large array
+            toks = num.findall(blk)
+            if len(toks) != len(state):
+                return None
+            for t, hx in zip(toks, state):
+                v = float.fromhex(hx)
+                try:
+                    x = float(t)
+                except ValueError:
+                    return None
+                if v != v or x != x or v in (float("inf"), float("-inf")):
+                    continue
+                if abs(x - v) > 0.51 + 1e-6 * abs(v):
+                    return (f"{lab.name}.report shows {t} where entry {k} ({label!r}) of the history holds {v!r}: "
+                            f"the report does not list the same entries")
         return None
 
     def adopt(self, new, i):
